@@ -25,7 +25,8 @@ ASSUMPTIONS = [
     'an indefinite regimen with final_time=None lists only its first dose (documented)']
 REQUIRED = ['sim', 'table', 'data', 'direct', 'indirect', 'single', 'finite', 'indefinite', 'protocol',
             'ft:before', 'ft:at_dose', 'ft:between', 'ft:none', 'start>0', 'bolus', 'infusion', 'lib_pk',
-            'rerouted', 'rerouted:same_component', 'route:global_state', 'data:undosed_after_dosed', 'index:not_unique', 'sim:outputs_after_regimen']
+            'rerouted', 'rerouted:same_component', 'route:global_state', 'data:undosed_after_dosed', 'index:not_unique', 'sim:outputs_after_regimen',
+            'prior_predictive_table:running_infusion', 'rerouted:after_sensitivity_cycle']
 
 
 @st.composite
@@ -151,6 +152,8 @@ def classify(spec):
     labs.append('direct' if spec['admin']['direct'] else 'indirect')
     if spec['admin'].get('prev'):
         labs.append('rerouted')
+        if _sens_cycle_before_reroute(spec) and not spec['lib']:
+            labs.append('rerouted:after_sensitivity_cycle')
         ms_ = spec['ms']
         if ms_ is not None and min(spec['admin']['prev'][0], spec['admin']['comp']) >= len(ms_['comps']) and \
                 bool(spec['admin']['prev'][1]) == bool(spec['admin']['direct']):
@@ -198,6 +201,11 @@ PK_MS = dict(comps=[dict(id='central', size=1.0, sid='drug', init=0.0)], gstates
              perm=dict(species=[0], params=[0], rules=[0], comps=[0]))
 
 
+def _sens_cycle_before_reroute(spec):
+    pv = spec['admin'].get('prev')
+    return bool(pv) and (int(pv[0]) + int(spec['admin']['comp']) + len(spec.get('times') or [])) % 2 == 0
+
+
 def _build_model(spec):
     import chi
     import chi.library
@@ -212,6 +220,10 @@ def _build_model(spec):
         if spec['admin'].get('prev'):
             c0, v0 = _target(ms, spec['admin']['prev'][0])
             M.set_administration(c0, amount_var=v0, direct=bool(spec['admin']['prev'][1]))
+            if _sens_cycle_before_reroute(spec):
+                # the model went through a gradient evaluation (sensitivities on and off again) on the earlier route
+                M.enable_sensitivities(True)
+                M.enable_sensitivities(False)
         c1, v1 = _target(ms, spec['admin']['comp'])
         M.set_administration(c1, amount_var=v1, direct=spec['admin']['direct'])
     return M, ms
@@ -549,6 +561,30 @@ def check(case):
                                'scheduled %r' % (i, n, [g[0] for g in got_i], [w[0] for w in sorted(want)]))
                     case.close(np.array(got_i), np.array(sorted(want)), rtol=1e-9,
                                what='dose rows (time, duration, amount) of sample ID %d (n_samples=%d)' % (i, n))
+        # a prior predictive model sampled up to a time at which the last infusion is still RUNNING: the table lists every
+        # dose that has started (once for all samples)
+        if s['protocol'] is None:
+            with case.clause('prior_predictive_table'):
+                import pints
+                r = s['reg']
+                last = sorted(sbmlgen.regimen_events(r['dose'], r['start'], r['duration'], r['period'], r['num'], ft))[-1]
+                t_mid = float(last[0] + 0.5 * last[1])
+                want_mid = sorted((a, b, c * b) for a, b, c in sbmlgen.regimen_events(
+                    r['dose'], r['start'], r['duration'], r['period'], r['num'], t_mid))
+                prior = pints.ComposedLogPrior(*[pints.GaussianLogPrior(float(v), 1e-9 * max(abs(float(v)), 1.0))
+                                                 for v in params])
+                prm = chi.PriorPredictiveModel(pm, prior)
+                smp = prm.sample(np.array([0.5 * t_mid, t_mid]), n_samples=2, seed=4, include_regimen=True)
+                case.true('Dose' in smp.columns, 'no dose column in the table sampled from a prior predictive model',
+                          kind='missing_column')
+                got_m = sorted((float(a), float(b), float(c)) for a, b, c in
+                               smp[smp['Dose'].notnull()][['Time', 'Duration', 'Dose']].values)
+                case.equal(len(got_m), len(want_mid), 'number of dose rows of a prior predictive model sampled up to %r (the '
+                           'infusion started at %r runs until %r): listed %r, started by then %r' % (
+                               t_mid, last[0], last[0] + last[1], [g[0] for g in got_m], [w[0] for w in want_mid]))
+                case.close(np.array(got_m), np.array(want_mid), rtol=1e-9,
+                           what='dose rows of a prior predictive model sampled while an infusion is running')
+                case.labels.append('prior_predictive_table:running_infusion')
         # a population predictive model whose population model has covariates: the covariate rows of the sampled
         # individuals stand next to the same dose rows
         with case.clause('population_sample_table'):
